@@ -1282,3 +1282,24 @@ Proof.
   intros E st a o b Hh Hhint Hl. unfold read_current. simpl. unfold run. apply bind_fst_err.
   unfold get_all_data_files. apply bind_fst_err. eapply resolve_listing_fails; eauto.
 Qed.
+
+(* ================================================================ C14_batched_guard_complete *)
+Lemma prefixes_shorter : forall handed groups, Forall2 prefix_of handed groups ->
+  (List.length (List.concat handed) <= List.length (List.concat groups))%nat.
+Proof.
+  intros handed groups H. induction H as [|a b hs gs [c ->] _ IH]; simpl; [lia|]. rewrite !app_length. lia.
+Qed.
+
+Theorem batched_guard_complete : forall handed groups rows,
+  Forall2 prefix_of handed groups ->
+  guarded_batches (List.length (List.concat groups)) handed = Ok rows ->
+  rows = List.concat groups.
+Proof.
+  intros handed groups rows H Hg. unfold guarded_batches in Hg.
+  destruct (Nat.eqb (List.length (List.concat handed)) (List.length (List.concat groups))) eqn:He; [|discriminate].
+  inversion Hg; subst rows. clear Hg. apply Nat.eqb_eq in He.
+  induction H as [|a b hs gs [c ->] Hrest IH]; [reflexivity|]. simpl in *.
+  pose proof (prefixes_shorter _ _ Hrest) as Hle. rewrite !app_length in He.
+  assert (Hc : List.length c = 0%nat) by lia. destruct c; [|discriminate]. rewrite app_nil_r in *.
+  f_equal. apply IH. lia.
+Qed.
